@@ -21,12 +21,18 @@ Definition ok (c : case_t) : bool :=
 "#;
 
 /// (label, features reported absent)
-const TIERS: [(&str, &str); 4] = [
+const TIERS: [(&str, &str); 6] = [
     ("native", ""),
     ("avx2", "avx512"),
     ("sse", "avx512,avx2,avx"),
     ("scalar", "avx512,avx2,avx,bmi2,bmi1,popcnt,lzcnt,sse42,sse41"),
+    // mixed tiers (oracle only, no model cases): SSE4.1 without SSE4.2 is the only way into the
+    // `Sse2` UTF-8 kernel and pairs BMI2 with the table CRC and scalar memory kernels; BMI masked
+    // alone pairs the software bit helpers with AVX-512 / POPCNT kernels
+    ("sse41", "avx512,avx2,avx,sse42"),
+    ("nobmi", "bmi2,bmi1"),
 ];
+const MODEL_TIERS: usize = 4;
 
 // ---------------------------------------------------------------------------------------------
 // guard-page regions
@@ -122,6 +128,7 @@ struct Ctx {
     rd: Region,
     crumb: Option<Crumb>,
     force_coq: bool,
+    objs: std::rc::Rc<wide::Objs>,
 }
 
 #[derive(Clone, Copy)]
@@ -150,6 +157,7 @@ impl Ctx {
     }
     /// model case for Coq: (op, a, b, k, expected observation)
     fn coq(&mut self, op: u32, a: &[u8], b: &[u8], k: u64, obs: Option<Vec<i128>>, cj: &Value) {
+        if !TIERS[..MODEL_TIERS].iter().any(|t| t.1 == self.disable) { return; }
         let used = self.coq_used.entry(op).or_insert(0);
         if !self.force_coq && *used >= self.coq_per_op { return; }
         if a.len() > 300 && !self.force_coq && *used * 4 >= self.coq_per_op { return; } // few long ones
@@ -253,6 +261,9 @@ macro_rules! check {
     }};
 }
 
+#[path = "c14_wide.rs"]
+mod wide;
+
 /// width of the vector loop memory::simd_ops uses in this process for a buffer of length n (0 = scalar)
 fn memops_width(disable: &str) -> u64 {
     if !disable.contains("avx512") { 64 } else if !disable.contains("avx2") { 32 } else if !disable.contains("sse41") { 16 } else { 0 }
@@ -311,6 +322,7 @@ fn op_compare(cx: &mut Ctx, a: &[u8], b: &[u8], pl: Place) {
         check!(cx, cell4, &cj, o.extract_prefix_simd(s2), u64::from_le_bytes(p8), "extract_prefix_simd");
         check!(cx, cell4, &cj, zipora::hash_map::get_global_simd_ops().fast_string_compare(s1, s2, 0), eq, "global fast_string_compare");
     }
+    wide::more_compare(cx, &cj, sa, sb, a, b);
 }
 
 fn search_configs() -> Vec<zipora::io::simd_memory::SearchConfig> {
@@ -350,6 +362,7 @@ fn op_find_byte(cx: &mut Ctx, h: &[u8], needle: u8, pl: Place) {
     cx.sum.eval(cell3, "", false);
     check!(cx, cell3, &cj, zipora::string::sse42_strchr(sh, needle), want, "string::sse42_strchr");
     check!(cx, cell3, &cj, zipora::string::SimdStringSearch::new().sse42_strchr(sh, needle), want, "SimdStringSearch::sse42_strchr");
+    wide::more_find_byte(cx, &cj, sh, h, needle);
 }
 
 fn op_find_sub(cx: &mut Ctx, h: &[u8], n: &[u8], pl: Place) {
@@ -385,6 +398,7 @@ fn op_find_sub(cx: &mut Ctx, h: &[u8], n: &[u8], pl: Place) {
         check!(cx, cell4, &cj, zipora::string::search_string_bmi2(s1, s2), w, "search_string_bmi2");
         check!(cx, cell4, &cj, zipora::string::Bmi2StringProcessor::new().search_bmi2(s1, s2), w, "Bmi2StringProcessor::search_bmi2");
     }
+    wide::more_find_sub(cx, &cj, sh, sn, h, n);
 }
 
 fn op_find_any(cx: &mut Ctx, h: &[u8], set: &[u8], pl: Place) {
@@ -423,6 +437,7 @@ fn op_find_any(cx: &mut Ctx, h: &[u8], set: &[u8], pl: Place) {
             }
         }
     }
+    wide::more_find_any(cx, &cj, sh, ss, h, set);
 }
 
 fn op_copy(cx: &mut Ctx, src: &[u8], pl: Place) {
@@ -474,6 +489,7 @@ fn op_copy(cx: &mut Ctx, src: &[u8], pl: Place) {
             }
         }
     }
+    wide::more_copy(cx, &cj, src, pl);
 }
 
 fn op_fill(cx: &mut Ctx, n: usize, v: u8, pl: Place) {
@@ -494,6 +510,7 @@ fn op_fill(cx: &mut Ctx, n: usize, v: u8, pl: Place) {
             }
         }
     }
+    wide::more_fill(cx, &cj, n, v, pl);
 }
 
 fn op_utf8(cx: &mut Ctx, a: &[u8], pl: Place) {
@@ -531,6 +548,7 @@ fn op_utf8(cx: &mut Ctx, a: &[u8], pl: Place) {
     let cell3 = "string::unicode/validate_utf8_and_count_chars";
     cx.sum.eval(cell3, "", false);
     check!(cx, cell3, &cj, zipora::string::validate_utf8_and_count_chars(sa).ok(), std_count, "validate_utf8_and_count_chars");
+    wide::more_utf8(cx, &cj, sa, a);
 }
 
 fn op_crc(cx: &mut Ctx, a: &[u8], init: u32, split: usize, pl: Place) {
@@ -550,6 +568,7 @@ fn op_crc(cx: &mut Ctx, a: &[u8], init: u32, split: usize, pl: Place) {
         let op = if cx.disable.contains("sse42") { 5 } else { 4 };
         cx.coq(op, a, &[], init as u64, Some(vec![v as i128]), &cj);
     }
+    wide::more_crc(cx, &cj, sa, a, init, split);
 }
 
 fn op_codec(cx: &mut Ctx, a: &[u8], pl: Place) {
@@ -614,6 +633,7 @@ fn op_codec(cx: &mut Ctx, a: &[u8], pl: Place) {
             check!(cx, cell3, &cj, c.decode(&ws).ok(), Some(a.to_vec()), format!("AdaptiveBase64(url {}, pad {}, {:?}).decode", url, pad, force));
         }
     }
+    wide::more_codec(cx, &cj, sa, a);
 }
 
 fn op_strings(cx: &mut Ctx, a: &[u8], b: &[u8], k: u64, pl: Place) {
@@ -682,6 +702,7 @@ fn op_strings(cx: &mut Ctx, a: &[u8], b: &[u8], k: u64, pl: Place) {
             Ok(g) => if g != want { cx.failc(cell3, class, &cj, &format!("wildcard_match_bmi2 = {}, scalar definition (full glob match) gives {}", g, want)); }
         }
     }
+    wide::more_strings(cx, &cj, st, a, b, k);
 }
 fn op_strings2(cx: &mut Ctx, a: &[u8], b: &[u8], k: u64, pl: Place) {
     // byte-class operations of bmi2_string_ops on ASCII text (the scalar definitions truncate chars to
@@ -790,6 +811,8 @@ fn op_bits(cx: &mut Ctx, x: u64, m: u64, k: u32) {
         }
         check!(cx, cell, &cj, b.encode_variable_length_bmi2(x as u32, len).ok(), Some((x as u32 as u64) & ((1u64 << len) - 1)), n("encode_variable_length_bmi2"));
     }
+    for (name, cfg) in bitops_configs() { wide::more_bits_cfg(cx, &cj, &name, &cfg, x, m, k); }
+    for (name, cfg) in wide::extra_bitops_configs() { wide::more_bits_core(cx, &cj, &name, &cfg, x, m, k); wide::more_bits_cfg(cx, &cj, &name, &cfg, x, m, k); }
     let e = zipora::entropy::EntropyBitOps::new();
     check!(cx, cell, &cj, e.reverse_bits32(x as u32), ref_rev(x as u32 as u64, 32) as u32, "EntropyBitOps::reverse_bits32");
     if let Ok(v) = guarded(|| zipora::entropy::BitOps::with_config(bitops_configs()[3].1.clone()).popcount64(x)) { cx.coq(11, &[], &[], x, Some(vec![v as i128]), &cj); }
@@ -878,6 +901,10 @@ fn run_one(cx: &mut Ctx, c: &Value) {
             for (i, v) in b.iter().take(8).enumerate() { m[i] = *v; }
             op_bits(cx, u64::from_le_bytes(x), u64::from_le_bytes(m), k as u32)
         }
+        "memhist" => wide::op_memhist(cx, c),
+        "big" => wide::op_big(cx, c),
+        "utf8iter" => wide::op_utf8iter(cx, c),
+        "enum" => wide::op_enum(cx, c),
         _ => {}
     }
 }
@@ -1047,6 +1074,8 @@ fn generate(cx: &mut Ctx, thorough: bool) {
         let k = match r.below(6) { 0 => 0, 1 => 63, 2 => 64, 3 => *r.pick(&[31u32, 32, 33, 255, 256, 257, 288, 300, u32::MAX]), _ => r.below(70) as u32 };
         op_bits(cx, x, m, k);
     }
+    // 6. breadth families (c14_wide.rs)
+    wide::generate_wide(cx, thorough, &mut r);
     cx.rng = r;
 }
 
@@ -1067,6 +1096,7 @@ fn child(args: &Args) {
         ra: Region::new(), rb: Region::new(), rd: Region::new(),
         crumb: Some(Crumb::open(&format!("{}/crumb.bin", args.out))),
         force_coq: false,
+        objs: std::rc::Rc::new(wide::Objs::new()),
     };
     if let Some(f) = &args.replay {
         let txt = std::fs::read_to_string(f).expect("replay file");
@@ -1104,7 +1134,7 @@ fn corpus_dir() -> String {
     exe.and_then(|p| p.ancestors().nth(4).map(|r| r.join("corpus/C14").to_string_lossy().to_string())).unwrap_or_else(|| "/verif/corpus/C14".into())
 }
 
-const RULE: &str = "per dispatch tier (native, avx512 masked, avx512+avx2 masked, everything masked; one process each through the ZIPORA_VERIF_DISABLE hook): every length 0..=130 and 4090..=4100 plus 255..257, 511..513, 1023..1025 and random lengths up to 4089, each under several placements: flush against a PROT_NONE guard page at either end, 64-byte aligned, or a random alignment 0..63 straddling a page boundary; all 64 alignments of both buffers on lengths 15..17/31..33/63..65/100; needles at first/last/chunk-boundary positions and absent, surrounded by needle bytes outside the slice; bytes >= 0x80; UTF-8 pieces (valid 1-4 byte boundary code points, overlong, surrogate, > U+10FFFF, truncated, stray continuation) placed at chunk boundaries and at the end; substring needles of 0..40 bytes over 2/3/144-letter alphabets; character sets of 1..20 members with zero bytes in the haystack; bit helpers on special and random words with indices up to u32::MAX; a case is non-trivial when the input is at least one SSE vector long (bit helpers: non-zero operands); distinct = distinct canonical case text";
+const RULE: &str = "per dispatch tier (native, avx512 masked, avx512+avx2 masked, everything masked, SSE4.1 without SSE4.2, BMI1/2 masked alone; one process each through the ZIPORA_VERIF_DISABLE hook): every length 0..=130 and 4090..=4100 plus 255..257, 511..513, 1023..1025 and random lengths up to 4089, each under several placements: flush against a PROT_NONE guard page at either end, 64-byte aligned, or a random alignment 0..63 straddling a page boundary; all 64 alignments of both buffers on lengths 15..17/31..33/63..65/100; needles at first/last/chunk-boundary positions and absent, surrounded by needle bytes outside the slice; bytes >= 0x80; UTF-8 pieces (valid 1-4 byte boundary code points, overlong, surrogate, > U+10FFFF, truncated, stray continuation) placed at chunk boundaries and at the end; substring needles of 0..40 bytes over 2/3/144-letter alphabets; character sets of 1..20 members with zero bytes in the haystack; bit helpers on special and random words with indices up to u32::MAX under every switch of BitOpsConfig, batches of 0..10 words and 0..4 masks, fields inside and outside the word; every case also through reused / cloned / global objects, SimdMemOps::with_cache_config over the five presets and six hand-made configurations, all eight SearchConfig combinations, the four Base64 configurations of encoder, decoder and codec incl. each other's encodings; operation histories (6..17 operations: fill, copy between and inside two shared buffers through every copy entry point, compare, byte / substring / set search, running CRC, UTF-8 verdicts, hex and Base64 encode / decode into the buffers, prefetch hints) judged by two shadow vectors after every step; cursor histories (next / prev / reset / current / position) of the UTF-8 iterator; inputs of 65535..65537 and 2^20+63 bytes flush against a guard page, described by (kind, n, seed, pos); periodic needles with false starts before a straddling match in haystacks up to 4099 bytes; complete enumerations of the hex / UTF-8 length / Base64 length / ASCII class tables and of the dispatch macros; a case is non-trivial when the input is at least one SSE vector long (bit helpers: non-zero operands); distinct = distinct canonical case text";
 
 pub fn run(args: &Args) {
     if std::env::var("ZV_C14_CHILD").is_ok() { child(args); return; }
